@@ -95,7 +95,7 @@ structure FwdLog where
   top : Acc
   breq : BReq
   epoch : Nat
-deriving Repr
+deriving Repr, DecidableEq
 
 /-- ghost record of one answered access -/
 structure AnsLog where
@@ -103,7 +103,7 @@ structure AnsLog where
   bid : Nat
   rsp : URsp
   epoch : Nat
-deriving Repr
+deriving Repr, DecidableEq
 
 structure St where
   txs : List Tx := []
